@@ -1,4 +1,5 @@
 import RoaringModel.Lemmas.UnsafeLemmas
+import RoaringModel.Lemmas.MirrorLemmas
 /-!
 # C15 — no safe call sequence causes an invalid memory access (bounds logic of the unsafe sites)
 
@@ -291,5 +292,22 @@ theorem C15_keyBack_advanceBackTo (it : BIter) (index : Nat) (hi : index < 65536
   C15_inv_advanceBackTo it index hi h
 
 example : k ∈ List.range' (5 + 1) (9 - 5 - 1) → k < 1024 := C15_next_scan_index 5 9 k (by decide)
+
+/-! ## Fidelity audit (stores): `retain` with the stateless closures of `ArrayStore &= / -= &BitmapStore`
+
+`notes/fidelity-stores-iter32.md`.  `C15_retain_eq_model` ties the index-level `retain` loop (write cursor `pos`,
+`truncate(pos)`) to the list-level model for the two galloping closures.  The remaining two callers of `retain`
+(array_store/mod.rs:398 `|x| rhs.contains(x)`, :437 `|x| !rhs.contains(x)`) have a stateless predicate; the list-level
+model (`Store.arrAndBitmap`, `Store.arrSubBitmap`) is `List.filter`. -/
+
+/-- Site 9, tie of the two models for a stateless predicate: on any vector the index-level `retain` leaves exactly
+    `List.filter p`; with `p = rhs.contains` / `!rhs.contains` that is `Store.arrAndBitmap` / `Store.arrSubBitmap`. -/
+theorem C15_retain_filter_eq_model (p : Nat → Bool) (vec : Array Nat) (b : BStore) :
+    (retain (fun (_ : Unit) x => ((), p x)) () vec).1.toList = vec.toList.filter p
+    ∧ (retain (fun (_ : Unit) x => ((), b.contains x)) () vec).1.toList = Store.arrAndBitmap vec.toList b
+    ∧ (retain (fun (_ : Unit) x => ((), !b.contains x)) () vec).1.toList = Store.arrSubBitmap vec.toList b :=
+  ⟨retain_filter p vec, retain_filter _ vec, retain_filter _ vec⟩
+
+example : (retain (fun (_ : Unit) x => ((), x % 2 == 1)) () #[7, 3, 4, 7, 0, 9]).1 = #[7, 3, 7, 9] := by decide
 
 end Roaring.C15
